@@ -11,7 +11,10 @@ const seqPrelude = `(declare-sort GSeq 0)
 (declare-fun seq_cons (GSeq Int) GSeq)
 (declare-fun seq_len (GSeq) Int)
 (assert (= (seq_len seq_nil) 0))
-(assert (forall ((s GSeq) (x Int)) (! (= (seq_len (seq_cons s x)) (+ 1 (seq_len s))) :pattern ((seq_cons s x)))))`
+(assert (forall ((s GSeq) (x Int)) (! (= (seq_len (seq_cons s x)) (+ 1 (seq_len s))) :pattern ((seq_cons s x)))))
+(declare-fun seq_set (GSeq) (Array Int Bool))
+(assert (= (seq_set seq_nil) ((as const (Array Int Bool)) false)))
+(assert (forall ((s GSeq) (x Int)) (! (= (seq_set (seq_cons s x)) (store (seq_set s) x true)) :pattern ((seq_cons s x)))))`
 
 func (d *Decls) needSeq() { d.add("seq-prelude", seqPrelude) }
 
